@@ -114,6 +114,18 @@ def cases(draw):
         spec = dict(spec, doc_type=draw(st.sampled_from(
             [['list', inner], ['dict', 'str', ['seq', inner]], ['opt', ['mmap', 'str', inner]],
              ['union', ['mseq', inner], ['map', 'str', 'str']]])))
+    elif tk == 'T5' and draw(st.integers(0, 2)) == 0:
+        # a later Union member that also accepts a bool scalar: an enum
+        enums = [c['name'] for c in spec['classes'] if c.get('kind') == 'enum']
+        if not enums:
+            spec = dict(spec, classes=spec['classes'] + [
+                {'name': 'En', 'kind': 'enum', 'members': ['red', 'true']}],
+                order=list(spec['order']) + ['En'])
+            enums = ['En']
+        en = ['ref', draw(st.sampled_from(enums))]
+        spec = dict(spec, doc_type=draw(st.sampled_from(
+            [['union', 'bool', en], ['union', 'bool', 'int', en], ['list', ['union', en, 'bool']],
+             ['dict', 'str', ['union', 'bool', en, 'none']]])))
     elif tk == 'T5' and draw(st.integers(0, 3)) > 0:
         spec = dict(spec, doc_type=draw(st.sampled_from(
             [['union', 'bool', 'int'], ['list', ['union', 'int', 'bool']],
